@@ -9,3 +9,10 @@ import DSymVerif.Props.C07
 #print axioms DSymVerif.C07.generator_index_safe
 #print axioms DSymVerif.C07.scaled_curvature_exact
 #print axioms DSymVerif.C07.min_hyperbolic_iff
+#print axioms DSymVerif.C07.children_exhaustive
+#print axioms DSymVerif.C07.curvature_antitone
+#print axioms DSymVerif.C07.min_hyperbolic_window
+#print axioms DSymVerif.C07.dsyms_output
+#print axioms DSymVerif.C07.dsyms_output_base_negative
+#print axioms DSymVerif.C07.box_suffices
+#print axioms DSymVerif.C07.spec_curvature_exact
